@@ -97,6 +97,19 @@ fn check_span(ops: &[Operation]) -> Result<(), (String, String)> {
     if want != got {
         return Err(("groups_do_not_decode_to_the_sequence".into(), format!("want {want:?} got {got:?}")));
     }
+    // the batches are the documented ones: a batch is closed only when the next operation cannot
+    // be placed in it (an early-closed batch still obeys every per-batch rule above, but hashes
+    // to something else than the specified commitment)
+    let all: Vec<(u8, Option<u64>)> = ops.iter().map(|o| (o.op_code(), o.imm_value().map(|v| v.as_int()))).collect();
+    let reference = mast::batch_greedy(&all);
+    if reference != groups {
+        let first = reference.iter().zip(groups.iter()).position(|(a, b)| a != b).unwrap_or(reference.len().min(groups.len()));
+        return Err((
+            "batches_differ_from_documented_batching".into(),
+            format!("{} batches, documented batching gives {}; first difference in batch {first}: real {:?} reference {:?}",
+                groups.len(), reference.len(), groups.get(first), reference.get(first)),
+        ));
+    }
     // hash = RPO sponge over the batches
     let h = mast::hash_batches(&groups, &Rpo);
     if h != word_of(span.hash()) {
